@@ -49,7 +49,7 @@ ELEMENT_KINDS = ["wire", "port", "port0", "tb", "sp", "rr", "wrr", "drr", "wfq",
 
 # ---- kind 'pipe': linear pipelines of 2-3 REAL elements that have an interface adapter (coq/Elem/Adapt*.v), driven by
 # the elem_common harness and replayed in the COMPOSITE Coq model (coq/Elem/Compose.v) --------------------------------
-PIPE_ELEMS = ["wire", "port", "port0", "tb", "sp", "rr", "wrr", "wfq", "vc", "drr"]
+PIPE_ELEMS = ["wire", "port", "port0", "red", "tb", "trtb", "sp", "rr", "wrr", "wfq", "vc", "drr"]
 PIPE_SCHEDS = ("sp", "rr", "wrr", "wfq", "vc", "drr")
 PIPE_FLOWS = (0, 1, 2)
 PIPE_SIZES = (64, 128, 256, 512)
@@ -111,10 +111,19 @@ class HandTap:
 
     def put(self, p):
         uid = getattr(p, "uid", None)
-        self.h._emit(["out", "s%d" % self.k, uid, ec.pkt_fields(p), id(p) == id(self.h.packets.get(uid))])
+        self.h._emit(["out", "s%d" % self.k, uid, ec.pkt_fields(p), id(p) == id(self.h.packets.get(uid)), getattr(p, "color", None)])
         before = dict(p.perhop_time)
         self.nxt.put(p)
         self.h._emit(["hand", self.k + 1, uid, stamp_diff(before, p), self.sample_next()])
+
+
+class LastTap(ec.Tap):
+    """the recorder behind the last stage (also notes packet.color at the moment of out.put)"""
+
+    def put(self, p):
+        uid = getattr(p, "uid", None)
+        self.got.append(p)
+        self.h._emit(["out", self.tag, uid, ec.pkt_fields(p), id(p) == id(self.h.packets.get(uid)), getattr(p, "color", None)])
 
 
 def _first_component(s):
@@ -139,8 +148,8 @@ class GenSinkPart:
     # OForward of Port / Bucket / SchedBase, the record field `rate` of Bucket / SchedBase); GenSink last for gen/sink terms
     coq_imports = ["From ONL Require Import Base.Cmp Elem.Packet Elem.StoreQ Elem.HeapList Elem.WFQServer Elem.WFQ Elem.VC Elem.DRR "
                    "Elem.SchedBase Elem.SP Elem.RR Elem.WRR Elem.Bucket "
-                   "Elem.Wire Elem.Port Elem.Iface Elem.Compose Elem.AdaptWire Elem.AdaptPort Elem.AdaptBucket Elem.AdaptSched "
-                   "Elem.AdaptSrv Elem.AdaptDRR Elem.GenSink."]
+                   "Elem.TwoRate Elem.Wire Elem.Port Elem.Red Elem.Iface Elem.Compose Elem.AdaptWire Elem.AdaptPort Elem.AdaptBucket "
+                   "Elem.AdaptSched Elem.AdaptSrv Elem.AdaptDRR Elem.AdaptTwoRate Elem.AdaptRed Elem.GenSink."]
     props_files = {"C08": ["Props/C08_GenSink.v", "Props/C08_Net.v", "Props/C08_Pipe.v"]}
     weight = 2
     nontrivial_rule = {"C08": "gen: scripted inter-arrival/size draws incl. zero gaps, finite and infinite finish, initial delays; "
@@ -365,6 +374,12 @@ class GenSinkPart:
         w = ec.gen_workload(rng, flows=PIPE_FLOWS, n_max=8, sizes=PIPE_SIZES, burst_p=0.45)
         npk = len(w["packets"])
         els = [rng.choice(PIPE_ELEMS) for _ in range(n)]
+        seen_red = False
+        for i, el in enumerate(els):          # random.uniform of red_port.py is module-level: one scripted REDPort per pipeline
+            if el == "red":
+                if seen_red:
+                    els[i] = "port"
+                seen_red = True
         twin = rng.random() < 0.12
         if twin:
             # the same kind of element twice: whatever an element keeps ON THE PACKET (Wire: current_time, Port: perhop_time)
@@ -396,9 +411,33 @@ class GenSinkPart:
                     ql, lb = rng.choice([1, 2, 2, 3, 4]), False
                 stages.append({"el": "port", "rate": 0 if el == "port0" else rng.choice([512, 1024, 4096]), "qlimit": ql,
                                "limit_bytes": lb, "eid": eids.pop() if eids else None})
+            elif el == "red":
+                lb = rng.random() < 0.5
+                if lb:
+                    unit = rng.choice(PIPE_SIZES)
+                    mn = rng.choice([0, unit, 2 * unit, unit // 2])
+                    mx = mn + rng.choice([1, 2, 4]) * unit
+                    ql = mx + rng.choice([0, unit, 4 * unit])
+                else:
+                    mn = rng.choice([0, 0, 1, 1, 2])
+                    mx = mn + rng.choice([1, 2, 4])
+                    ql = mx + rng.choice([0, 1, 2, 4])
+                stages.append({"el": "red", "rate": rng.choice([512, 1024, 4096]), "qlimit": ql, "limit_bytes": lb,
+                               "eid": eids.pop() if eids else None,
+                               "red": {"min": mn, "max": mx, "maxp": cf.qjson(rng.choice([Fraction(1, 2), Fraction(1, 4), Fraction(1), Fraction(3, 4)])),
+                                       "w": rng.choice([0, 0, 1, 1, 2, 3])},
+                               "uniforms": [cf.qjson(Fraction(rng.randint(0, 8), 8)) for _ in range(npk)]})
             elif el == "tb":
                 stages.append({"el": "tb", "rate": rng.choice([512, 1024, 2048, 8192]), "bsize": rng.choice([0, 64, 128, 256, 1024]),
                                "peak": rng.choice([None, None, 0, 4096, 16384])})
+            elif el == "trtb":
+                cir = rng.choice([512, 1024, 2048])
+                st = {"el": "trtb", "cir": cir, "cbs": rng.choice([64, 128, 256, 1024])}
+                if rng.random() < 0.7:
+                    st.update({"pir": rng.choice([1, 2, 2, 4]) * cir, "pbs": rng.choice([64, 128, 256, 1024])})
+                else:
+                    st.update({"pir": rng.choice([None, None, 0]), "pbs": rng.choice([None, 512])})
+                stages.append(st)
             elif el in ("wfq", "vc"):
                 # flows 0-2 on one or two classes; WFQ weights equal powers of two so that every weight sum the code divides by
                 # is a power of two (exact floats); VC vticks dyadic
@@ -437,7 +476,7 @@ class GenSinkPart:
         from props.part_mq import PART as MP
         from props.part_wfq import PART as FP
         from props.part_drr import PART as DP
-        return {"wire": WP, "port": PP, "tb": BP, "sp": MP, "rr": MP, "wrr": MP, "wfq": FP, "vc": FP, "drr": DP}
+        return {"wire": WP, "port": PP, "red": PP, "tb": BP, "trtb": BP, "sp": MP, "rr": MP, "wrr": MP, "wfq": FP, "vc": FP, "drr": DP}
 
     @staticmethod
     def _pipe_subcase(case, st):
@@ -449,6 +488,11 @@ class GenSinkPart:
         if el == "port":
             return {"kind": "port", "workload": w, "rate": st["rate"], "qlimit": st["qlimit"], "limit_bytes": st["limit_bytes"],
                     "eid": st["eid"], "uniforms": []}
+        if el == "red":
+            return {"kind": "redport", "workload": w, "rate": st["rate"], "qlimit": st["qlimit"], "limit_bytes": st["limit_bytes"],
+                    "eid": st["eid"], "red": st["red"], "uniforms": st["uniforms"]}
+        if el == "trtb":
+            return {"kind": "trtb", "workload": w, "cir": st["cir"], "cbs": st["cbs"], "pir": st["pir"], "pbs": st["pbs"], "t0": "0"}
         if el == "tb":
             return {"kind": "tb", "workload": w, "rate": st["rate"], "bsize": st["bsize"], "peak": st["peak"], "t0": "0"}
         if el in ("wfq", "vc"):
@@ -481,6 +525,15 @@ class GenSinkPart:
             uniform = staticmethod(unis.uniform)
         saved = wmod.random
         wmod.random = FakeRandom
+        import onl.netdev.red_port as rmod
+        from props.part_port import Script as PScript
+        runis = PScript(next((st["uniforms"] for st in stages if st["el"] == "red"), []))
+
+        class FakeRandomRed:
+            uniform = staticmethod(runis.uniform)
+        saved_r = rmod.random
+        rmod.random = FakeRandomRed
+        self._runis = runis
         buf = io.StringIO()
         try:
             with contextlib.redirect_stdout(buf):
@@ -496,7 +549,7 @@ class GenSinkPart:
                     if k + 1 < n:
                         elems[k].out = HandTap(h, k, elems[k + 1], samplers[k + 1])
                     else:
-                        elems[k].out = h.tap("s%d" % k)
+                        elems[k].out = LastTap(h, "s%d" % k)
                 h.attach(elems[0])
                 h.after_action(lambda: [f() for f in samplers])
                 if not case.get("pre"):
@@ -505,11 +558,14 @@ class GenSinkPart:
                 log = h.run(max_steps=20000)
         finally:
             wmod.random = saved
+            rmod.random = saved_r
         final = []
         for k, st in enumerate(stages):
             e = elems[k]
-            if st["el"] == "port":
+            if st["el"] in ("port", "red"):
                 final.append({"received": e.packets_received, "dropped": e.packets_dropped, "store": len(e.store.items)})
+            elif st["el"] == "trtb":
+                final.append({"received": e.packets_received, "sent": e.packets_sent, "store": len(e.store.items)})
             elif st["el"] == "wire":
                 final.append({"received": e.packets_rec, "store": len(e.store.items), "uniforms": unis.n})
             elif st["el"] == "tb":
@@ -537,6 +593,20 @@ class GenSinkPart:
             e = Port(env, st["rate"], st["qlimit"], st["limit_bytes"], st["eid"])
             smp = (lambda: [e.packets_received, e.packets_dropped, e.byte_size, len(e.store.items), int(e.busy), "0/1", 0,
                             [getattr(p, "uid", -1) for p in e.store.items], e.busy_packet_size, []])
+        elif el == "red":
+            from onl.netdev.red_port import REDPort
+            from props.part_port import _num
+            r = st["red"]
+            runis = PART._runis
+            e = REDPort(env, st["rate"], max_threshold=r["max"], min_threshold=r["min"], max_probability=_num(r["maxp"]),
+                        element_id=st["eid"], qlimit=st["qlimit"], weight_factor=r["w"], limit_bytes=st["limit_bytes"])
+            smp = (lambda: [e.packets_received, e.packets_dropped, e.byte_size, len(e.store.items), int(e.busy),
+                            ec.qs(e.average_queue_size), runis.n, [getattr(p, "uid", -1) for p in e.store.items], e.busy_packet_size, []])
+        elif el == "trtb":
+            from onl.netdev.two_level_token_bucket import TwoRateTokenBucket
+            e = TwoRateTokenBucket(env, cir=num(st["cir"]), cbs=st["cbs"], pir=None if st["pir"] is None else num(st["pir"]), pbs=st["pbs"])
+            smp = (lambda: [e.packets_received, e.packets_sent, ec.qs(e.current_bucket_commit),
+                            None if e.current_bucket_peak is None else ec.qs(e.current_bucket_peak), ec.qs(e.update_time), len(e.store.items)])
         elif el == "tb":
             from onl.netdev.token_bucket import TokenBucket
             e = TokenBucket(env, rate=num(st["rate"]), bucket_size=st["bsize"], peak=None if st["peak"] is None else num(st["peak"]))
@@ -603,7 +673,7 @@ class GenSinkPart:
                         e.total_packets, [], stl]
         proc = getattr(e, "action", None) or getattr(e, "proc")
         proc._generator.__name__ = "run@%d" % k
-        if el in ("wire", "port", "tb", "wfq", "vc"):
+        if el in ("wire", "port", "red", "tb", "trtb", "wfq", "vc"):
             h.watch_store("store@%d" % k, e.store)
         return e, smp
 
@@ -612,7 +682,8 @@ class GenSinkPart:
     def _pipe_split(case, obs):
         """-> (sublogs, sched, err).  sublogs[k] = the log of stage k as its own part's harness would have written it;
         sched = per global action ("adv", t) | ("put", uid, outs) | ("step", k, index into sublogs[k], outs)
-        with outs = the hand-overs / deliveries of the action as (boundary, uid), in order"""
+        with outs = the hand-overs / deliveries of the action as (boundary, uid), in order; every entry but "adv" ends with
+        the list of (stage, index into its sublog) of the put() calls made during the action"""
         import re
         stages = case["stages"]
         n = len(stages)
@@ -647,22 +718,26 @@ class GenSinkPart:
                         return None, None, f"stage {j} forwarded inside an action of stage {owner} without a hand-over"
                 elif o[0] == "hand":
                     j = o[1]
-                    st = [x for x in o[3]] if stages[j]["el"] == "port" else []
+                    st = [x for x in o[3]] if stages[j]["el"] in ("port", "red") else []
                     pending.append((j, ["put", o[2], st, o[4]]))
                 elif o[0] == "stamp":
-                    if stages[owner]["el"] == "port":
+                    if stages[owner]["el"] in ("port", "red"):
                         mine.append(o)
                 else:
                     return None, None, f"unexpected output {o[:2]}"
+            caused = []           # (stage, index into its sublog) of every put() made during this action, in order
             if kind == "put":
                 sub[0].append(["put", e[1], mine, samples[0]])
-                sched.append(("put", e[1], seen))
+                caused.append((0, len(sub[0]) - 1))
+                entry = ["put", e[1], seen]
             else:
                 label = [e[1][0], re.sub(r"@\d+", "", e[1][1])]
                 sub[owner].append(["step", label, mine, samples[owner]])
-                sched.append(("step", owner, len(sub[owner]) - 1, seen))
+                entry = ["step", owner, len(sub[owner]) - 1, seen]
             for j, pe in pending:
                 sub[j].append(pe)
+                caused.append((j, len(sub[j]) - 1))
+            sched.append(tuple(entry) + (caused,))
         return sub, sched, None
 
     def _pipe_elem_term(self, case, k):
@@ -674,6 +749,10 @@ class GenSinkPart:
             return f"(wire_elem {cf.opt(st['loss'], cf.q)} {q0})"
         if st["el"] == "port":
             return f"(port_elem {parts['port']._cfg_term(sc)} {q0})"
+        if st["el"] == "red":
+            return f"(oport_elem {parts['port']._cfg_term(sc)} {q0})"
+        if st["el"] == "trtb":
+            return f"(trtb_elem {parts['trtb']._cfg_term(sc)} {q0})"
         if st["el"] == "tb":
             return f"(tb_elem {parts['tb']._cfg_term(sc)} {q0})"
         if st["el"] == "wfq":
@@ -703,7 +782,7 @@ class GenSinkPart:
                 from props import part_drr
                 o["quantum"] = obs["final"][k]["quantum"]
                 acts, e2 = part_drr.actions(sc, o)
-            elif st["el"] == "tb":
+            elif st["el"] in ("tb", "trtb"):
                 acts, e2 = part._obs_term(sc, o)
             else:
                 acts, e2 = part._actions(sc, o)
@@ -722,15 +801,27 @@ class GenSinkPart:
         def outs_term(seen):
             return cf.lst([(f"EForward {ec.pkt_coq(specs[str(u)], u)}" if j == n - 1 else f"EHand {cf.nat(j)} {ec.pkt_coq(specs[str(u)], u)}")
                            for (j, u) in seen])
+        import re
         comp = []
         for x in sched:
             if x[0] == "adv":
                 comp.append(f"(IAdv {cf.q(x[1])}, [])")
-            elif x[0] == "put":
+                continue
+            # a put into a REDPort that consumes a draw: the value is loaded onto the adapter's oracle tape just before the
+            # action during which the put is made
+            for (j, idx) in x[-1]:
+                if stages[j]["el"] == "red":
+                    m = re.search(r"\(Some (\(\(-?\d+\)%Z # \d+\))\)$", _first_component(triples[j][idx]))
+                    if m:
+                        comp.append(f"(IStep ({inj(j, 'OLoad ' + m.group(1))}), [])")
+            if x[0] == "put":
                 comp.append(f"(IPut {ec.pkt_coq(specs[str(x[1])], x[1])}, {outs_term(x[2])})")
             else:
-                _, k, idx, seen = x
-                comp.append(f"(IStep ({inj(k, _first_component(triples[k][idx]))}), {outs_term(seen)})")
+                _, k, idx, seen, _c = x
+                a = _first_component(triples[k][idx])
+                if stages[k]["el"] == "red":
+                    a = "OAct (" + a + ")"
+                comp.append(f"(IStep ({inj(k, a)}), {outs_term(seen)})")
         return stage_terms, comp, None
 
     def _pipe_agree(self, case, obs):
@@ -796,7 +887,7 @@ class GenSinkPart:
                     msgs.append(f"pipe-duplicated: {name} forwarded packet {u} {outs.count(u)} times")
             # the documented discards
             dropped = 0
-            if st["el"] == "port":
+            if st["el"] in ("port", "red"):
                 dropped = fin["dropped"]
             elif st["el"] == "wire" and st["loss"] is not None:
                 loss = Fraction(st["loss"])
@@ -1062,6 +1153,7 @@ class GenSinkPart:
             keys.append("pipeline:len=%d" % len(case["chain"]))
         if k == "pipe":
             keys.append("pipe:" + ">".join(st["el"] + ("0" if st["el"] == "port" and st["rate"] == 0 else "") for st in case["stages"]))
+            keys += ["pipe:has-" + e for e in sorted({st["el"] for st in case["stages"]})]
             keys.append("pipe:len=%d" % len(case["stages"]))
             keys.append("pipe:packets=%d" % min(len(case["workload"]["packets"]), 8))
         return keys
